@@ -9,7 +9,35 @@
 //   c01_total record OUT quick|thorough seed SECTION [scratch-dir]
 #include "c06_drive.hpp"
 
+#include <fcppt/args.hpp>
+#include <fcppt/args_char.hpp>
+#include <fcppt/args_from_second.hpp>
 #include <fcppt/args_vector.hpp>
+#include <fcppt/getenv.hpp>
+#include <fcppt/make_cref.hpp>
+#include <fcppt/nonmovable.hpp>
+#include <fcppt/enum/array.hpp>
+#include <fcppt/enum/array_init.hpp>
+#include <fcppt/enum/input.hpp>
+#include <fcppt/io/expect.hpp>
+#include <fcppt/io/extract.hpp>
+#include <fcppt/io/get.hpp>
+#include <fcppt/io/peek.hpp>
+#include <fcppt/optional/copy_value.hpp>
+#include <fcppt/optional/deref.hpp>
+#include <fcppt/optional/from.hpp>
+#include <fcppt/optional/from_pointer.hpp>
+#include <fcppt/optional/make.hpp>
+#include <fcppt/optional/to_exception.hpp>
+#include <fcppt/optional/to_pointer.hpp>
+#include <fcppt/options/default_help_switch.hpp>
+#include <fcppt/options/help_result.hpp>
+#include <fcppt/options/help_text.hpp>
+#include <fcppt/options/parse_help.hpp>
+#include <fcppt/parse/grammar.hpp>
+#include <fcppt/parse/grammar_parse_string.hpp>
+#include <fcppt/time/gmtime.hpp>
+#include <fcppt/variant/match.hpp>
 #include <fcppt/make_ref.hpp>
 #include <fcppt/narrow.hpp>
 #include <fcppt/narrow_locale.hpp>
@@ -92,7 +120,13 @@
 #include <fcppt/parse/skipper/space.hpp>
 #include <fcppt/record/make_label.hpp>
 
+#include <array>
 #include <clocale>
+#include <ctime>
+#include <forward_list>
+#include <memory>
+#include <unordered_map>
+#include <unordered_set>
 #include <cstdio>
 #include <cstring>
 #include <deque>
@@ -669,7 +703,10 @@ void filesystem_fns(std::string const &scratch)
   });
   // lexical path functions on all paths of <= 3 components over a small set of names
   std::vector<std::string> const names{"a", "a.b", ".h", "..", ".", "a.b.c", "x."};
-  std::vector<std::string> paths{"", "/", "a/", "/a/", "//a", "a//b"};
+  std::vector<std::string> paths{"", "/", "a/", "/a/", "//a", "a//b",
+                                 // extension round: trailing slashes, "..", spaces, dots, non-ASCII names
+                                 "a/b/", "../a", "./a", "a/..", "a/../b.c", "/..", "//", " ", "a b.c", "a b/c d.e f", "...", ".a.", "a..b", "a.b.",
+                                 "\xE6\x97\xA5\xE6\x9C\xAC.txt", "\xC3\xA9/\xC3\xBC.tar.gz", "a\\b.c", std::string(300, 'p') + ".q", "a/" + std::string(40, '/') + "b"};
   for (auto const &n1 : names)
   {
     paths.push_back(n1);
@@ -811,9 +848,340 @@ void parse_strings(c06::config const &cfg)
   parse_one("alt", alt, inputs, [](auto const &) { return std::string("[]"); });
 }
 
+// ================================================================== extension round
+// ------------------------------------------------------------------ io::get / peek / extract / expect
+std::istream &operator>>(std::istream &st, colour &c) { return fcppt::enum_::input(st, c); }   // as enum/input.hpp suggests
+
+void io_fns(c06::config const &cfg)
+{
+  std::string const text = "ab\ncd e";
+  for (std::size_t len = 0; len <= 4; ++len)
+    for (std::size_t pre = 0; pre <= len; ++pre)
+      for (int st = 0; st < 6; ++st)
+      {
+        bool const eofbit = st == 1 || st == 4, failbit = st == 2 || st == 4, badbit = st == 3 || st == 5;
+        std::string const content = text.substr(0, len);
+        std::string const rest = content.substr(pre);
+        auto const prepare = [&](std::istringstream &is) {
+          for (std::size_t i = 0; i < pre; ++i) is.get();
+          std::ios_base::iostate s2 = std::ios_base::goodbit;
+          if (eofbit) s2 |= std::ios_base::eofbit;
+          if (failbit) s2 |= std::ios_base::failbit;
+          if (badbit) s2 |= std::ios_base::badbit;
+          is.clear(s2);
+        };
+        std::string const state = std::string(",\"rest\":") + vj::cps(rest) + ",\"eofbit\":" + (eofbit ? "true" : "false") +
+                                  ",\"failbit\":" + (failbit ? "true" : "false") + ",\"badbit\":" + (badbit ? "true" : "false");
+        {
+          std::istringstream is(content);
+          prepare(is);
+          total_call(fname("io_get") + state, [&is] {
+            auto const r = fcppt::io::get(is);
+            return r.has_value() ? value("[" + std::to_string(static_cast<int>(static_cast<unsigned char>(r.get_unsafe()))) + "]") : nothing();
+          });
+        }
+        {
+          std::istringstream is(content);
+          prepare(is);
+          total_call(fname("io_peek") + state, [&is] {
+            auto const r = fcppt::io::peek(is);
+            return r.has_value() ? value("[" + std::to_string(static_cast<int>(static_cast<unsigned char>(r.get_unsafe()))) + "]") : nothing();
+          });
+        }
+      }
+  std::vector<std::string> const extra{"2147483647", "2147483648", "-2147483648", "-2147483649", "99999999999999999999", "12 34", "7x", "\n\t 5", "0x10", "1e3"};
+  for (auto const &s : token_strings(" -+019a", cfg.tier == 0 ? 3 : 4, extra))
+  {
+    total_call(fname("io_extract_int") + ",\"s\":" + vj::cps(s), [&s] {
+      std::istringstream is(s);
+      auto const r = fcppt::io::extract<int>(is);
+      return r.has_value() ? value("[" + c06::zjson(c06::to_z(r.get_unsafe())) + "]") : nothing();
+    });
+    for (int const expected : {0, 1, -1, 19})
+      total_call(fname("io_expect_int") + ",\"s\":" + vj::cps(s) + ",\"expected\":" + std::to_string(expected), [&s, expected] {
+        std::istringstream is(s);
+        fcppt::io::expect(is, expected);
+        return value(std::string("[") + (is.fail() ? "1" : "0") + "]");
+      });
+  }
+}
+
+// ------------------------------------------------------------------ extract_from_string of an enum (operator>> through enum_::input)
+void enum_extract()
+{
+  auto const name_array{fcppt::enum_::names<colour>()};
+  std::vector<std::string> names;
+  for (auto const n : name_array.impl()) names.emplace_back(n);
+  std::string nj = "[";
+  for (std::size_t i = 0; i < names.size(); ++i) nj += (i ? "," : "") + vj::cps(names[i]);
+  nj += "]";
+  std::set<std::string> inputs{"", " ", "x", "RED", "red ", " red", "\nred", "red green", "redgreen", "blue", "blue_green\n", "\t blue_green"};
+  for (auto const &n : names)
+    for (std::size_t l = 0; l <= n.size(); ++l) { inputs.insert(n.substr(0, l)); inputs.insert(" " + n.substr(l)); }
+  for (auto const &s : inputs)
+    total_call(fname("extract_enum") + ",\"names\":" + nj + ",\"s\":" + vj::cps(s), [&s] {
+      auto const r = fcppt::extract_from_string<colour>(s);
+      return r.has_value() ? value("[" + std::to_string(static_cast<int>(r.get_unsafe())) + "]") : nothing();
+    });
+  // enum_::array: operator[] is total over the enumerators
+  auto const arr{fcppt::enum_::array_init<fcppt::enum_::array<colour, int>>([](auto const e) { return 10 * static_cast<int>(decltype(e)::value); })};
+  for (int i = 0; i <= static_cast<int>(colour::fcppt_maximum); ++i)
+    total_call(fname("enum_array_at") + ",\"i\":" + std::to_string(i), [&arr, i] { return value("[" + std::to_string(arr[static_cast<colour>(i)]) + "]"); });
+}
+
+// ------------------------------------------------------------------ options::parse_help
+void parse_help_fns(c06::config const &cfg)
+{
+  namespace o = fcppt::options;
+  o::argument<arg_label, int> const arg{o::long_name{FCPPT_TEXT("arg")}, o::optional_help_text{}};
+  o::flag<flag_label, int> const flag{o::optional_short_name{o::short_name{FCPPT_TEXT("f")}}, o::long_name{FCPPT_TEXT("flag")},
+                                      o::make_active_value(1), o::make_inactive_value(0), o::optional_help_text{}};
+  o::option<opt_label, int> const opt{o::optional_short_name{o::short_name{FCPPT_TEXT("o")}}, o::long_name{FCPPT_TEXT("opt")},
+                                      o::no_default_value<int>(), o::optional_help_text{}};
+  auto const all{o::apply(fcppt::make_cref(arg), fcppt::make_cref(opt), fcppt::make_cref(flag))};
+  o::help_switch const help{o::default_help_switch()};
+  std::vector<std::string> const toks{"--help", "-", "--", "", "-f", "--opt", "5", "x", "-h", "--help=1"};
+  std::vector<fcppt::args_vector> argvs{{}};
+  std::vector<fcppt::args_vector> cur{{}};
+  for (std::size_t l = 1; l <= (cfg.tier == 0 ? 3U : 4U); ++l)
+  {
+    std::vector<fcppt::args_vector> next;
+    for (auto const &a : cur)
+      for (auto const &t : toks) { auto b = a; b.push_back(t); next.push_back(b); }
+    argvs.insert(argvs.end(), next.begin(), next.end());
+    cur = next;
+  }
+  auto const log_args = [](fcppt::args_vector const &a) {
+    std::string s2 = "[";
+    for (std::size_t i = 0; i < a.size(); ++i) s2 += (i ? "," : "") + vj::cps(a[i]);
+    return s2 + "]";
+  };
+  auto const one = [&](char const *pname, auto const &parser, fcppt::args_vector const &a) {
+    // the outcome class of the plain parser on the same arguments (the documentation defines parse_help through it)
+    std::string plain = "exception";
+    try { plain = o::parse(parser, a).has_success() ? "value" : "failure"; } catch (...) {}
+    total_call(fname("parse_help") + ",\"p\":\"" + pname + "\",\"help\":" + vj::cps(std::string("--help")) + ",\"plain\":\"" + plain + "\",\"argv\":" + log_args(a), [&] {
+      return fcppt::variant::match(
+          o::parse_help(help, parser, a),
+          [](o::result<o::result_of<std::remove_cvref_t<decltype(parser)>>> const &r) { return r.has_success() ? value("[]") : failure(); },
+          [](o::help_text const &) { return std::string("\"out\":\"help\",\"v\":[]"); });
+    });
+  };
+  for (auto const &a : argvs)
+  {
+    one("arg", arg, a);
+    one("arg+opt+flag", all, a);
+  }
+}
+
+// ------------------------------------------------------------------ parse::grammar_parse_string
+using space_skipper = decltype(fcppt::parse::skipper::space());
+class int_grammar : public fcppt::parse::grammar<int, char, space_skipper>
+{
+  FCPPT_NONMOVABLE(int_grammar);
+public:
+  int_grammar() : grammar_base{fcppt::make_cref(this->start_), fcppt::parse::skipper::space()}, start_{grammar_base::make_base(fcppt::parse::int_<int>{})} {}
+  ~int_grammar() = default;
+private:
+  grammar_base::base_type<int> start_;
+};
+class list_grammar : public fcppt::parse::grammar<std::vector<int>, char, space_skipper>
+{
+  FCPPT_NONMOVABLE(list_grammar);
+public:
+  list_grammar()
+      : grammar_base{fcppt::make_cref(this->start_), fcppt::parse::skipper::space()},
+        item_{grammar_base::make_base(fcppt::parse::int_<int>{})},
+        start_{grammar_base::make_base(*fcppt::make_cref(this->item_))}
+  {
+  }
+  ~list_grammar() = default;
+private:
+  grammar_base::base_type<int> item_;
+  grammar_base::base_type<std::vector<int>> start_;
+};
+void grammar_fns(c06::config const &cfg)
+{
+  int_grammar const g1{};
+  list_grammar const g2{};
+  std::vector<std::string> const extra{"2147483647", "2147483648", " 42", "42 ", " 4 2 ", std::string(300, '7'), "1 2 3 4 5 6 7 8 9", std::string(200, ' ') + "5"};
+  for (auto const &s : token_strings("a-19 ", cfg.tier == 0 ? 4 : 5, extra))
+  {
+    total_call(fname("grammar_parse_string") + ",\"g\":\"int\",\"s\":" + vj::cps(s), [&g1, &s] {
+      return fcppt::either::match(fcppt::parse::grammar_parse_string(std::string{s}, g1), [](auto const &) { return failure(); }, [](auto const &) { return value("[]"); });
+    });
+    total_call(fname("grammar_parse_string") + ",\"g\":\"list\",\"s\":" + vj::cps(s), [&g2, &s] {
+      return fcppt::either::match(fcppt::parse::grammar_parse_string(std::string{s}, g2), [](auto const &) { return failure(); }, [](auto const &) { return value("[]"); });
+    });
+  }
+}
+
+// ------------------------------------------------------------------ optional accessors that are documented total
+void optional_fns()
+{
+  for (int has = 0; has <= 1; ++has)
+    for (int const x : {0, 7, -3})
+    {
+      fcppt::optional::object<int> const o{has ? fcppt::optional::object<int>{x} : fcppt::optional::object<int>{}};
+      std::string const base = ",\"has\":" + std::string(has ? "true" : "false") + ",\"x\":" + std::to_string(x);
+      total_call(fname("optional_from") + base + ",\"d\":42", [&o] { return value("[" + std::to_string(fcppt::optional::from(o, [] { return 42; })) + "]"); });
+      total_call(fname("optional_to_exception") + base + ",\"exc\":\"std::out_of_range\"", [&o] {
+        return value("[" + std::to_string(fcppt::optional::to_exception(o, [] { return std::out_of_range{"empty"}; })) + "]");
+      });
+      int target = x;
+      fcppt::optional::reference<int> const ref{has ? fcppt::optional::reference<int>{fcppt::make_ref(target)} : fcppt::optional::reference<int>{}};
+      total_call(fname("optional_to_pointer") + base, [&ref, &target] {
+        int *const ptr = fcppt::optional::to_pointer(ref);
+        return value(std::string("[") + (ptr != nullptr ? "1" : "0") + "," + (ptr == &target ? "1" : "0") + "]");
+      });
+      total_call(fname("optional_copy_value") + base, [&ref] {
+        auto const r = fcppt::optional::copy_value(ref);
+        return r.has_value() ? value("[" + std::to_string(r.get_unsafe()) + "]") : nothing();
+      });
+      total_call(fname("optional_from_pointer") + base, [&target, has] {
+        auto const r = fcppt::optional::from_pointer(has ? &target : static_cast<int *>(nullptr));
+        return r.has_value() ? value("[" + std::to_string(r.get_unsafe().get()) + "]") : nothing();
+      });
+      std::unique_ptr<int> const up{std::make_unique<int>(x)};
+      fcppt::optional::object<int const *> const op{has ? fcppt::optional::object<int const *>{up.get()} : fcppt::optional::object<int const *>{}};
+      total_call(fname("optional_deref") + base, [&op] {
+        auto const r = fcppt::optional::deref(op);
+        return r.has_value() ? value("[" + std::to_string(r.get_unsafe().get()) + "]") : nothing();
+      });
+    }
+}
+
+// ------------------------------------------------------------------ more container kinds
+void containers2()
+{
+  for (auto const &xs : small_sequences())
+  {
+    std::string const str(xs.begin(), xs.end());   // characters 7, 8, 9
+    std::vector<std::size_t> const idx{0, 1, 2, 3, 4, static_cast<std::size_t>(1) << 63, std::numeric_limits<std::size_t>::max()};
+    for (auto const i : idx)
+      total_call(fname("at_optional") + ",\"k\":\"const string\",\"xs\":" + ints(xs) + ",\"i\":" + std::to_string(sat(i)), [&str, i] {
+        auto const r = fcppt::container::at_optional(str, i);
+        return r.has_value() ? value("[" + std::to_string(static_cast<int>(r.get_unsafe().get())) + "]") : nothing();
+      });
+    if (xs.size() == 3)
+    {
+      std::array<int, 3> arr{xs[0], xs[1], xs[2]};
+      for (auto const i : idx)
+        total_call(fname("at_optional") + ",\"k\":\"std::array\",\"xs\":" + ints(xs) + ",\"i\":" + std::to_string(sat(i)), [&arr, i] {
+          auto const r = fcppt::container::at_optional(arr, i);
+          return r.has_value() ? value("[" + std::to_string(r.get_unsafe().get()) + "]") : nothing();
+        });
+    }
+    std::string const base = ",\"xs\":" + ints(xs);
+    {
+      std::string c(str);
+      total_call(fname("maybe_front") + ",\"k\":\"string\"" + base, [&c] {
+        auto const r = fcppt::container::maybe_front(c);
+        return r.has_value() ? value("[" + std::to_string(static_cast<int>(r.get_unsafe().get())) + "]") : nothing();
+      });
+      total_call(fname("maybe_back") + ",\"k\":\"string\"" + base, [&c] {
+        auto const r = fcppt::container::maybe_back(c);
+        return r.has_value() ? value("[" + std::to_string(static_cast<int>(r.get_unsafe().get())) + "]") : nothing();
+      });
+      total_call(fname("pop_back") + ",\"k\":\"string\"" + base, [&c] {
+        auto const r = fcppt::container::pop_back(c);
+        return (r.has_value() ? value("[" + std::to_string(static_cast<int>(r.get_unsafe())) + "]") : nothing()) + ",\"after\":" + ints(c);
+      });
+    }
+    {
+      std::forward_list<int> fl(xs.begin(), xs.end());
+      total_call(fname("maybe_front") + ",\"k\":\"forward_list\"" + base, [&fl] {
+        auto const r = fcppt::container::maybe_front(fl);
+        return r.has_value() ? value("[" + std::to_string(r.get_unsafe().get()) + "]") : nothing();
+      });
+      total_call(fname("pop_front") + ",\"k\":\"forward_list\"" + base, [&fl] {
+        auto const r = fcppt::container::pop_front(fl);
+        return (r.has_value() ? value("[" + std::to_string(r.get_unsafe()) + "]") : nothing()) + ",\"after\":" + ints(fl);
+      });
+      std::vector<int> const cv(xs.begin(), xs.end());
+      total_call(fname("maybe_front") + ",\"k\":\"const vector\"" + base, [&cv] {
+        auto const r = fcppt::container::maybe_front(cv);
+        return r.has_value() ? value("[" + std::to_string(r.get_unsafe().get()) + "]") : nothing();
+      });
+      total_call(fname("maybe_back") + ",\"k\":\"const vector\"" + base, [&cv] {
+        auto const r = fcppt::container::maybe_back(cv);
+        return r.has_value() ? value("[" + std::to_string(r.get_unsafe().get()) + "]") : nothing();
+      });
+    }
+  }
+  for (unsigned mask = 0; mask < 8U; ++mask)
+  {
+    std::unordered_map<int, int> um;
+    std::multimap<int, int> mm;
+    std::unordered_set<int> us;
+    std::vector<int> keys, mapped;
+    for (int k = 1; k <= 3; ++k)
+      if ((mask >> (k - 1)) & 1U) { um[k] = 10 * k + 1; mm.emplace(k, 10 * k + 1); us.insert(k); keys.push_back(k); mapped.push_back(10 * k + 1); }
+    std::map<int, int> const cm(um.begin(), um.end());
+    std::unordered_set<int> const &cus = us;
+    for (int key = 0; key <= 4; ++key)
+    {
+      std::string const base = ",\"xs\":" + ints(keys) + ",\"ms\":" + ints(mapped) + ",\"key\":" + std::to_string(key);
+      total_call(fname("find_opt_mapped") + ",\"k\":\"unordered_map\"" + base, [&um, key] {
+        auto const r = fcppt::container::find_opt_mapped(um, key);
+        return r.has_value() ? value("[" + std::to_string(r.get_unsafe().get()) + "]") : nothing();
+      });
+      total_call(fname("find_opt_mapped") + ",\"k\":\"multimap\"" + base, [&mm, key] {
+        auto const r = fcppt::container::find_opt_mapped(mm, key);
+        return r.has_value() ? value("[" + std::to_string(r.get_unsafe().get()) + "]") : nothing();
+      });
+      total_call(fname("find_opt_mapped") + ",\"k\":\"const map\"" + base, [&cm, key] {
+        auto const r = fcppt::container::find_opt_mapped(cm, key);
+        return r.has_value() ? value("[" + std::to_string(r.get_unsafe().get()) + "]") : nothing();
+      });
+      total_call(fname("find_opt") + ",\"k\":\"const unordered_set\"" + base, [&cus, key] {
+        auto const r = fcppt::container::find_opt(cus, key);
+        return r.has_value() ? value("[" + std::to_string(r.get_unsafe().get()) + "]") : nothing();
+      });
+    }
+  }
+}
+
+// ------------------------------------------------------------------ getenv, args, args_from_second, time::gmtime
+void env_args()
+{
+  ::setenv("VERIF_C01_SET", "some value", 1);
+  ::setenv("VERIF_C01_EMPTY", "", 1);
+  ::unsetenv("VERIF_C01_UNSET");
+  struct ev { char const *name; bool set; char const *val; };
+  for (ev const &e : {ev{"VERIF_C01_SET", true, "some value"}, ev{"VERIF_C01_EMPTY", true, ""}, ev{"VERIF_C01_UNSET", false, ""},
+                      ev{"", false, ""}, ev{"VERIF_C01_SET=x", false, ""}, ev{"=", false, ""}, ev{"verif_c01_set", false, ""}})
+    total_call(fname("getenv") + ",\"name\":" + vj::cps(std::string(e.name)) + ",\"set\":" + (e.set ? "true" : "false") + ",\"val\":" + vj::cps(std::string(e.val)), [&e] {
+      auto const r = fcppt::getenv(e.name);
+      return r.has_value() ? value(vj::cps(r.get_unsafe())) : nothing();
+    });
+  auto const log_vec = [](fcppt::args_vector const &a) {
+    std::string s = "[";
+    for (std::size_t i = 0; i < a.size(); ++i) s += (i ? "," : "") + vj::cps(a[i]);
+    return s + "]";
+  };
+  std::vector<std::vector<std::string>> const argvs{{}, {"prog"}, {"prog", "-"}, {"prog", "", "--x", "a b"}, {""}};
+  for (auto const &a : argvs)
+  {
+    std::vector<fcppt::args_char const *> ptrs;
+    for (auto const &x : a) ptrs.push_back(x.c_str());
+    ptrs.push_back(nullptr);
+    fcppt::args_vector const as_vec(a.begin(), a.end());
+    int const argc = static_cast<int>(a.size());
+    total_call(fname("args") + ",\"second\":false,\"argv\":" + log_vec(as_vec), [&] { return value(log_vec(fcppt::args(argc, ptrs.data()))); });
+    total_call(fname("args") + ",\"second\":true,\"argv\":" + log_vec(as_vec), [&] { return value(log_vec(fcppt::args_from_second(argc, ptrs.data()))); });
+  }
+  for (long long const t : {0LL, 1LL, 59LL, 60LL, 3599LL, 86399LL, 86400LL, 951782400LL, 2147483647LL, -1LL, -86400LL})
+    total_call(fname("gmtime") + ",\"t\":" + std::to_string(t), [t] {
+      std::tm const r = fcppt::time::gmtime(static_cast<std::time_t>(t));
+      return value("[" + std::to_string(r.tm_sec) + "," + std::to_string(r.tm_min) + "," + std::to_string(r.tm_hour) + "," + std::to_string(r.tm_wday) + "]");
+    });
+}
+
 std::vector<std::string> own_sections()
 {
-  return {"containers", "grid", "enum_string", "dynamic", "from_range", "extract", "streams", "runtime_index", "codecvt", "filesystem", "options", "parse"};
+  return {"containers", "grid", "enum_string", "dynamic", "from_range", "extract", "streams", "runtime_index", "codecvt", "filesystem", "options", "parse",
+          "io", "enum_extract", "parse_help", "grammar", "optional", "containers2", "env_args"};
 }
 }
 
@@ -859,6 +1227,13 @@ int main(int argc, char **argv)
   else if (sec == "filesystem") filesystem_fns(scratch);
   else if (sec == "options") options_parse(cfg);
   else if (sec == "parse") parse_strings(cfg);
+  else if (sec == "io") io_fns(cfg);
+  else if (sec == "enum_extract") enum_extract();
+  else if (sec == "parse_help") parse_help_fns(cfg);
+  else if (sec == "grammar") grammar_fns(cfg);
+  else if (sec == "optional") optional_fns();
+  else if (sec == "containers2") containers2();
+  else if (sec == "env_args") env_args();
   else
   {
     std::fprintf(stderr, "unknown section %s\n", sec.c_str());
